@@ -64,15 +64,16 @@ var c04Configs = []lab.Cfg{
 	{StoreID: true, WholeCID: true},
 	{V1: true},
 	{V1: true, StoreID: true, AllowDup: true},
-	{MaxCid: 40},
+	{MaxCid: 36}, // exactly the length of A, A', B, C and IA: at the limit is within the limit
 	{DataPad: 7, IndexPad: 5, Sorted: true},
-	{MaxCid: 40, StoreID: true, WholeCID: true},
+	{MaxCid: 36, StoreID: true, WholeCID: true},
 	{MaxCid: math.MaxUint64}, // "no limit"
+	{IndexPad: 1 << 63},      // an index padding no file can hold: Finalize cannot succeed, and is terminal all the same
 	// thorough extras
 	{V1: true, WholeCID: true},
 	{AllowDup: true, WholeCID: true, StoreID: true, DataPad: 1},
 	{Sorted: true, StoreID: true},
-	{V1: true, MaxCid: 40},
+	{V1: true, MaxCid: 36},
 	{V1: true, DataPad: 1024},
 	{MaxCid: 1 << 63, StoreID: true},
 }
@@ -466,7 +467,13 @@ func c04RunHistory(t *mon.T, api string, cfg lab.Cfg, a c04Alpha, hist []string,
 		case op == "F":
 			err := st.Finalize()
 			if state == stOpen {
-				if err != nil {
+				if err != nil && cfg.IndexPad >= 1<<62 {
+					// Finalize had to fail (the index cannot be placed): "after Finalize" holds all the same —
+					// the store is closed, the file never changes again
+					state = stClosed
+					frozen = st.FileBytes()
+					t.Cover("finalize-that-cannot-succeed")
+				} else if err != nil {
 					viol("Finalize/error", "Finalize on an open store failed: %v", err)
 				} else {
 					state = stClosed
@@ -482,7 +489,12 @@ func c04RunHistory(t *mon.T, api string, cfg lab.Cfg, a c04Alpha, hist []string,
 		case op == "R":
 			err := st.FinalizeReadOnly()
 			if state == stOpen {
-				if err != nil {
+				if err != nil && cfg.IndexPad >= 1<<62 {
+					// it had to fail; the store takes no more writes all the same
+					state = stReadOnly
+					frozen = st.FileBytes()
+					t.Cover("finalize-that-cannot-succeed")
+				} else if err != nil {
 					viol("FinalizeReadOnly/error", "FinalizeReadOnly on an open store failed: %v", err)
 				} else {
 					state = stReadOnly
@@ -597,7 +609,7 @@ func runC04(t *mon.T, raw json.RawMessage) {
 
 func genC04(g *mon.G) {
 	a := c04Alphabet()
-	ncfg := g.Pick(11, len(c04Configs))
+	ncfg := g.Pick(12, len(c04Configs))
 	depth := g.Pick(2, 3) // histories of length ≤ 1+depth
 	for _, api := range []string{"blockstore", "storage", "blockstore-file", "storage-notrunc"} {
 		for ci := 0; ci < ncfg; ci++ {
